@@ -116,4 +116,86 @@ CHECKS['C13'] = {
           'C13-stop-leaves-untracked-connection); that a stop in the single-connection regime reaches the stopped state is checked by exploration',
   'technique': 'Coq proof (symbolic execution of the generated FSM, invariant by induction) + refutation witness + exploration correspondence',
 }
+SESSION_NOTE = ('FSM methods regenerated from yabgp/core/fsm.py on every run (fail-closed translator); protocol.py/factory.py/timer.py glue and the '
+                'abstract reactor are a hand-written model tied by exploration correspondence (every explored trace replayed on the model in Coq); '
+                'Twisted is replaced by the deterministic stub in harness/stubs; decoders enter as parameters. ')
+CHECKS['C01'] = {
+  'text': 'Coq theorem: for every world of the single-connection regime (any timers, hold times, history) and every (state, event) pair the RFC 4271 profile '
+          '(spec/RfcFsm.v, written from the RFC) lets occur, outside five listed departures, the reaction of the generated FSM method - next state, NOTIFICATION '
+          'code/subcode, close, messages, new attempt, restart pending - is the prescribed one, and ignored events change nothing (C01_conforms); the departures are '
+          'exactly the listed cells (C01_departures_exact, known findings); Established only after OPEN then KEEPALIVE; error rows notify-close-Idle. Oracle: the same '
+          'Coq table evaluated on the reactions of the real code for every (state, event) edge reached by exhaustive de-duplicated exploration.',
+  'note': SESSION_NOTE + 'Active state and (state, event) pairs that cannot occur in the profile are excluded by [applicable]; 5 known findings C01-*; the mapping from wire '
+          'messages to RFC events is the dispatch glue (C04/C05/C10)',
+  'technique': 'Coq proof (symbolic execution of the generated FSM against an RFC table) + translator + exploration correspondence',
+}
+CHECKS['C02'] = {
+  'text': 'Coq theorems for every decoder behaviour: every error close and every connection end re-arm the restart timer in ANY world; its expiry connects; from ANY '
+          'world that is Idle with the restart pending the cooperative continuation reaches Established when the idle-hold period ends, with hold = min(configured, '
+          'proposed) and an OPEN carrying the configured hold time (C02_recovers); it then stays up while KEEPALIVEs arrive (C02_stays_up, induction). Oracle: reconnection '
+          'pending in every explored abstract state, recovery within idle_hold + connect_retry + 1 s and still up three hold times later, several timer configurations.',
+  'note': SESSION_NOTE + 'PARTIAL: the invariant "every reachable non-session state has a reconnection pending" is stated (C02_reconnect_pending_statement) and checked by '
+          'exploration only; its ingredients are proved. Model is of the code with fix 336756d',
+  'technique': 'Coq proof (symbolic execution over arbitrary worlds, 4-step recovery script, induction for stays-up) + translator + exploration correspondence',
+}
+CHECKS['C03'] = {
+  'text': 'Coq theorems for ARBITRARY hold times: negotiation = min and keepalive period = H/3; entering OpenConfirm arms keepalive H/3 and hold H (neither when H = 0); '
+          'keepalive expiry sends one KEEPALIVE and re-arms H/3 later; KEEPALIVE/UPDATE arrival restarts the hold timer from that instant; hold expiry sends (4,0), closes, Idle; '
+          'OpenSent limit 240 s; and over any sequence of arrivals, own timer expiries, REST sends and time (induction) the session stays Established with the hold deadline '
+          'exactly H after the last arrival. Oracle: the contract on virtual-time stamps of the real code over configured x proposed hold times and arrival schedules just '
+          'below/at/above H, bursts, long runs, both same-instant orders.',
+  'note': SESSION_NOTE + 'time in thirds of a second; timers are fired by the driver at their deadline; model is of the code with fix 46c885c (H = 0)',
+  'technique': 'Coq proof (symbolic execution with symbolic times, induction over event lists) + translator + exploration correspondence',
+}
+CHECKS['C05'] = {
+  'text': 'Coq theorems: the OPEN written at connection start in ANY world carries the configured AS (AS_TRANS rule), the CONFIGURED hold time, the configured identifier and '
+          'capabilities computed from the capability dictionary, which after any history is a sub-list of the configured one (C05_caps_subset_of_config, invariant); the '
+          'acceptance policy (version error / wrong AS / hold 1-2 / accept with hold = min) for every decoder result. Refuted by kernel-checked witnesses: capability pruning '
+          'across sessions and 4-octet-AS parsing without the local capability (known findings). Oracle: OPEN of every session after histories of accepted/rejected sessions, '
+          'acceptance reactions, AS_PATH delivered, over AS numbers across the 2/4-octet boundary, hold times and capability configurations.',
+  'note': SESSION_NOTE + 'known findings C05-capability-pruning, C05-asn4-without-local-capability, C05-hold-1-2-accepted-when-own-hold-0; OPEN octets are C14',
+  'technique': 'Coq proof (invariant + symbolic execution) + refutation witnesses + translator + exploration correspondence',
+}
+CHECKS['C06'] = {
+  'text': 'Coq theorem at full strength: for every message in the stated ranges, both AS modes - all prefix lengths 0..32 with any zero-host-bit address, lists of any '
+          'length, the twelve attributes with any in-range values, AS_PATH in both length forms, announce+withdraw - parse(construct m) = canon m (C06_roundtrip) plus per-attribute '
+          'and prefix theorems. Models tied by correspondence of construct and parse at message, attribute-list and prefix-list level (10.7k cases quick) and a round-trip oracle.',
+  'note': 'models describe yabgp after fix commits 6dc6c6c, b43e57e, 8ac4786, 4a1d2b7, 2a04047, 1b66d76, 7c29b1a; one domain restriction visible in wf and witnessed by '
+          'C06_nlri_without_attributes_refuted (known finding); communities compared in the decoder text form via tagged values (decimal rendering, netaddr trusted)',
+  'technique': 'Coq proof (round trip by induction and 33-way arithmetic case split) + model/implementation correspondence via vm_compute',
+}
+CHECKS['C09'] = {
+  'text': 'Coq theorems: the model decoder decodes every encoding of an independent RFC reference encoder (spec/RefUpdate.v) - all variants (2-/4-octet AS, add-path ids, '
+          'forced Extended Length, arbitrary trailing prefix bits, any attribute order, multi-segment AS paths, AS4_PATH/AS4_AGGREGATOR), all values, unbounded lists - to the '
+          'encoded values, and rejects every single-field malformation (C09_rejects). At the agent call site the first half holds iff add-path is not negotiated (refuted '
+          'witness = known finding C09-addpath-not-wired). Oracle: Python transcription of the reference encoder (cross-checked against the Coq one) feeding the real decoder.',
+  'note': 'decoder model tied by correspondence on every reference encoding and corruption; model is of the code with fix 7c29b1a; extended communities limited to route-target/-origin forms',
+  'technique': 'Coq proof (reference encoder vs decoder model, all variants) + model/implementation correspondence via vm_compute',
+}
+CHECKS['C15'] = {
+  'text': 'Coq theorems for all byte strings: concatenation law for IPv4 prefix lists (with/without add-path), communities / extended / large / cluster list, AS_PATH, OPEN '
+          'capabilities and optional parameters, one generic theorem for every TLV walker shape with the element decoder universally quantified, IPv6 unicast under its guard '
+          '(two refutations), VPNv4/v6; attribute permutation and unknown-attribute / unknown-TLV transparency. Oracle on the real decoders for all 44 list kinds: all pairs '
+          'from per-kind pools covering every element width, k-tuples, permutations, unknown TLV insertion.',
+  'note': 'EVPN, BGP-LS NLRIs/descriptors, link-state TLVs, Prefix-SID: oracle only (framing covered by the generic TLV theorem); labeled unicast, flowspec components: oracle + '
+          'correspondence; 4 known findings C15-*',
+  'technique': 'Coq proof (concatenation laws by induction, generic walker theorem) + model/implementation correspondence + all-pairs oracle',
+}
+CHECKS['C16'] = {
+  'text': 'The route table and decorator chains of the live Flask app are regenerated on every run (source AST and live __wrapped__ chain must agree, fail-closed) and proved equal '
+          'to the modelled table; Coq theorems: 401 and no effect without valid credentials, every peer route authenticated, Established gate, exact wire content of a successful '
+          'send incl. the iBGP default LOCAL_PREF. Exhaustive sweep: every rule x 7 methods x 12 credential variants x 12 session states x {eBGP, iBGP} through the Flask test '
+          'client against the real peering, judged by a model-free oracle and by model = implementation.',
+  'note': 'theorems are shallow by nature, the weight is in the exhaustive sweep; Flask/Werkzeug/Flask-HTTPAuth trusted as installed; Update.construct is a model parameter; '
+          'C16_send_exact assumes the FSM tracks a connected transport while Established (checked in every state reached)',
+  'technique': 'Coq proof over a generated route inventory (translator) + exhaustive request sweep with model/implementation correspondence',
+}
+CHECKS['C17'] = {
+  'text': 'Coq theorems for every in-range value: 15 of 18 wire formats of the 14 extended-community kinds, all 2^32 communities incl. well-known names, all large communities: '
+          'REST text is accepted, re-encodes to the RFC octets (independent spec/RefCom.v) and decodes to the same text. 4-octet-AS route-target/-origin refuted for AS < 65536 '
+          '(known finding) and proved under that guard; traffic-rate, es-import, router-mac partial. Oracle through the real Flask json_to_bin route on an Established peering.',
+  'note': 'decimal/hex/IPv4/MAC text handled by proved lemmas in lib/Dec.v; models of extcommunity.py, community.py, largecommunity.py and the v1.py recombination tied by ~7k '
+          'correspondence cases incl. the name tables; model is of the code with fixes 37338b8, 8ac4786, 4a1d2b7, 1b66d76',
+  'technique': 'Coq proof (text <-> octets round trips with decimal-string lemmas) + model/implementation correspondence via vm_compute',
+}
 NOT_CLAIMED = {}
